@@ -153,7 +153,9 @@ func readMap(i *bufio.Reader) (m RedisMessage, err error) {
 	if err == nil {
 		m.array, m.intlen, err = readA(i, length*2)
 	} else if err == errChunked {
-		m.array, m.intlen, err = readE(i)
+		if m.array, m.intlen, err = readE(i); err == nil && m.intlen%2 != 0 {
+			return RedisMessage{}, errors.New(unexpectedOddMap)
+		}
 	}
 	return m, err
 }
@@ -398,5 +400,6 @@ const (
 	unexpectedNoCRLF   = "received unexpected simple string message ending without CRLF"
 	unexpectedNumByte  = "received unexpected number byte: "
 	unexpectedNegLen   = "received unexpected negative length"
+	unexpectedOddMap   = "received unexpected streamed map with an odd number of elements"
 	unknownMessageType = "received unknown message type: "
 )
